@@ -184,6 +184,9 @@ def _qcow2(rng, ctx, c, cnt, sample, res, with_snaps=False):
     c.eq("header.snapshots_offset", q.header.snapshots_offset, meta["snapshots_offset"])
     c.eq("header.backing_file_size", q.header.backing_file_size, len(bname or b""))
     c.eq("header.header_length", q.header.header_length, hl)
+    # the compression type is a header field of its own only when the header is long enough to hold it (more than 104 bytes); every
+    # image written here uses deflate, whatever follows a 104-byte header
+    c.eq("compression_type", int(q.compression_type), 0)
     if ver == 3:
         c.eq("header.compatible_features", q.header.compatible_features, compat)
         c.eq("header.autoclear_features", q.header.autoclear_features, autoclear)
